@@ -46,35 +46,35 @@ Qed.
 
 (* fan-out: every sink with a session and an open connection gets exactly one push *)
 Lemma send_to_open st x m :
-  sv_alive (st_sv st) x = true -> k_closed (st_cl st x) = false ->
-  st_sv (send_to st x m) = st_sv st /\
+  sv_alive (st_sv st) x = true -> k_closed (st_cl st x) = false -> st_pend st = [] ->
+  st_sv (send_to st x m) = st_sv st /\ st_pend (send_to st x m) = [] /\
   k_s2c (st_cl (send_to st x m) x) = k_s2c (st_cl st x) ++ [m] /\
   k_closed (st_cl (send_to st x m) x) = false /\
   (forall y, y <> x -> st_cl (send_to st x m) y = st_cl st y).
 Proof.
-  intros Ha Hc. unfold send_to. rewrite Ha, Hc. cbn. unfold updf. rewrite N.eqb_refl. cbn.
-  repeat split. intros y Hy. destruct (y =? x) eqn:E; [apply N.eqb_eq in E; congruence|reflexivity].
+  intros Ha Hc Hp. unfold send_to. rewrite Ha, Hc, Hp. cbn. unfold updf. rewrite N.eqb_refl. cbn.
+  repeat split; try assumption. intros y Hy. destruct (y =? x) eqn:E; [apply N.eqb_eq in E; congruence|reflexivity].
 Qed.
 
 Lemma fanout sinks : forall st u p d,
-  NoDup sinks ->
+  NoDup sinks -> st_pend st = [] ->
   (forall s, In s sinks -> sv_alive (st_sv st) s = true /\ k_closed (st_cl st s) = false) ->
   let st' := fold_left (push_sink u p d) sinks st in
   st_sv st' = st_sv st /\ st_hz st' = st_hz st /\
   (forall s, In s sinks -> k_s2c (st_cl st' s) = k_s2c (st_cl st s) ++ [SPush u p d]) /\
   (forall y, ~ In y sinks -> st_cl st' y = st_cl st y).
 Proof.
-  induction sinks as [|s sinks IH]; intros st u p d Hnd Hall; cbn.
+  induction sinks as [|s sinks IH]; intros st u p d Hnd Hpe Hall; cbn.
   - repeat split. intros s [].
   - inversion Hnd; subst.
     destruct (Hall s (or_introl eq_refl)) as [Ha Hc].
-    destruct (send_to_open st s (SPush u p d) Ha Hc) as (S1 & S2 & S3 & S4).
+    destruct (send_to_open st s (SPush u p d) Ha Hc Hpe) as (S1 & S0 & S2 & S3 & S4).
     assert (push_sink u p d st s = send_to st s (SPush u p d)) as Ep.
-    { unfold push_sink. rewrite Ha, Hc. reflexivity. }
+    { reflexivity. }
     rewrite Ep.
     assert (st_hz (send_to st s (SPush u p d)) = st_hz st) as Hh.
-    { unfold send_to. rewrite Ha, Hc. reflexivity. }
-    specialize (IH (send_to st s (SPush u p d)) u p d H2).
+    { unfold send_to. rewrite Ha, Hc, Hpe. reflexivity. }
+    specialize (IH (send_to st s (SPush u p d)) u p d H2 S0).
     assert (forall s0, In s0 sinks -> sv_alive (st_sv (send_to st s (SPush u p d))) s0 = true /\
                                       k_closed (st_cl (send_to st s (SPush u p d)) s0) = false) as Hall'.
     { intros s0 Hin. rewrite S1. destruct (Hall s0 (or_intror Hin)) as [A B]. split; [exact A|].
@@ -101,7 +101,7 @@ Lemma apply_single st c x d p :
   st_now st <> 0 -> dmx_set d <> [] ->
   find_uni (sv_unis (st_sv st)) (u_id x) = Some x ->
   (u_srcs x = [] \/ exists b, u_srcs x = [(c, b)]) ->
-  NoDup (u_sinks x) ->
+  NoDup (u_sinks x) -> st_pend st = [] ->
   (forall s, In s (u_sinks x) -> sv_alive (st_sv st) s = true /\ k_closed (st_cl st s) = false) ->
   let st' := apply_dmx st c x d p in
   cd_find (sv_cdata (st_sv st')) (c, u_id x)
@@ -115,7 +115,7 @@ Lemma apply_single st c x d p :
   st_hz st' = st_hz st /\
   (forall rid y, snd (handle_req st' y (RGet rid (u_id x))) = Some (SDmx rid (u_id x) (clamp_prio p) (dmx_set d))).
 Proof.
-  intros Hnow Hd Hfind Hsrc Hnd Hall. unfold apply_dmx.
+  intros Hnow Hd Hfind Hsrc Hnd Hpe Hall. unfold apply_dmx.
   set (src := {| s_data := dmx_set d; s_ts := st_now st; s_prio := clamp_prio p |}).
   set (cd := cd_set (sv_cdata (st_sv st)) (c, u_id x) src).
   set (srcs := if src_memb c (u_srcs x) then _ else _).
@@ -135,7 +135,7 @@ Proof.
   match goal with |- context [fold_left _ _ ?s3] => set (st3 := s3) end.
   assert (forall s, In s (u_sinks x) -> sv_alive (st_sv st3) s = true /\ k_closed (st_cl st3 s) = false) as Hall3
     by (intros s Hs; exact (Hall s Hs)).
-  destruct (fanout (u_sinks x) st3 (u_id x) (clamp_prio p) (dmx_set d) Hnd Hall3) as (F1 & F2 & F3 & F4).
+  destruct (fanout (u_sinks x) st3 (u_id x) (clamp_prio p) (dmx_set d) Hnd Hpe Hall3) as (F1 & F2 & F3 & F4).
   cbn zeta in F1, F2, F3, F4. cbn zeta.
   assert (find_uni (set_uni (sv_unis (st_sv st)) x2) (u_id x) = Some x2) as Hfx.
   { rewrite <- Ei. eapply find_set_uni. rewrite Ei. exact Hfind. }
